@@ -11,7 +11,7 @@ from fractions import Fraction
 import numpy as np
 import z3
 
-from .poly import VARS, VKIND, VROLE, Sym, S, peval, pvars
+from .poly import VARS, VKIND, VROLE, Sym, S, peval, pvars, Atom as Atom_
 
 
 def _z3poly(p, zv):
@@ -39,7 +39,25 @@ def instantiate(eng, seed=0, n=4, lo=-3, hi=3, pin_zero=True):
     inputs = [v for v in range(len(VARS)) if VROLE[v] == 'input']
     rvars = [v for v in inputs if VKIND[v] == 'real']
     inset = set(inputs)
-    in_atoms = [a for a in eng.atoms if a.vars() and a.vars() <= inset and any(VKIND[v] == 'real' for v in a.vars())]
+    # auxiliary variables (sqrt / inverse / let) are functions of the inputs through their defining equations; atoms over
+    # inputs and such auxiliaries constrain the inputs too (e.g. "tolerance equals a cumulative weight")
+    aux = {v for v in range(len(VARS)) if VROLE[v] == 'aux'}
+    defs = [Atom_(h, '==') for h, t in zip(eng.hyps, eng.hyp_tags) if t in ('sqrt', 'inv', 'let') and pvars(h) <= (inset | aux)]
+    defs += [a for a in eng.atoms if a.op != '==' and a.vars() and a.vars() <= aux]      # e.g. sqrt >= 0
+    in_atoms = [a for a in eng.atoms if a.vars() and a.vars() <= (inset | aux) and any(VKIND[v] == 'real' for v in a.vars())
+                and not (a.vars() <= aux)]
+    used_aux = set()
+    for a in in_atoms:
+        used_aux |= a.vars() & aux
+    # close under the definitions of the auxiliaries that occur
+    changed = True
+    while changed:
+        changed = False
+        for d in defs:
+            if d.vars() & used_aux and not (d.vars() & aux) <= used_aux:
+                used_aux |= d.vars() & aux; changed = True
+    defs = [d for d in defs if d.vars() & used_aux]
+    in_atoms = in_atoms + defs
     constrained = set()
     for a in in_atoms:
         constrained |= {v for v in a.vars() if VKIND[v] == 'real'}
@@ -65,7 +83,7 @@ def instantiate(eng, seed=0, n=4, lo=-3, hi=3, pin_zero=True):
         if constrained:
             zv = {v: z3.Real('x!' + VARS[v]) for v in constrained}
             s = z3.Solver()
-            s.set('timeout', 5000)
+            s.set('timeout', 8000)
             s.set('random_seed', seed + k)
             for v in env:
                 if v not in zv:
@@ -77,7 +95,7 @@ def instantiate(eng, seed=0, n=4, lo=-3, hi=3, pin_zero=True):
                 e = _z3poly(a.p, zv)
                 s.add({'==': e == 0, '!=': e != 0, '<': e < 0, '<=': e <= 0}[a.op])
             # try to pin some constrained variables to random values to get generic witnesses
-            order = list(constrained); rng.shuffle(order)
+            order = [v for v in constrained if v not in aux]; rng.shuffle(order)
             for v in order:
                 val = Fraction(rng.randint(1, 9) * rng.choice((-1, 1)), rng.choice((1, 2, 3)))
                 s.push()
